@@ -369,12 +369,30 @@ class Interp:
                 self.block(st.orelse, env, depth)
         elif isinstance(st, ast.Return):
             raise _Return(self.ev(st.value, env, depth) if st.value is not None else None)
+        elif isinstance(st, (ast.For, ast.AsyncFor)) and isinstance(st.iter, ast.Call) and call_name(st.iter) == "count" \
+                and "count" not in env and len(st.iter.args) <= 1:
+            # itertools.count(start): an unbounded loop, left by break / return (cut like a while loop otherwise)
+            start_ = self.ev(st.iter.args[0], env, depth) if st.iter.args else 0
+            n_ = 0
+            while True:
+                if n_ >= max(self.while_cap, 3) + 3:
+                    self.undecided.append("unbounded loop cut")
+                    break
+                self.assign(st.target, (start_ + n_) if isinstance(start_, int) else UNKNOWN, env, st)
+                n_ += 1
+                try:
+                    self.block(st.body, env, depth)
+                except _Loop as l:
+                    if l.kind == "break":
+                        break
         elif isinstance(st, (ast.For, ast.AsyncFor)):
             it = self.ev(st.iter, env, depth)
             if isinstance(it, dict):
                 it = list(it.keys())
             elif isinstance(it, set):
                 it = sorted(it, key=repr)
+            if not isinstance(it, list) and self.strict_iter:
+                self.undecided.append(f"loop over a value the model does not follow: {norm(st.iter)[:50]}")
             items = it if isinstance(it, list) else [Sym(f"elem:{norm(st.iter)[:30]}")]
             for x in items:
                 self.assign(st.target, x, env, st)
@@ -526,6 +544,16 @@ class Interp:
             if e.attr in ("__getitem__", "__contains__") and isinstance(base, (dict, list, set)):
                 return BoundOp(e.attr, base)
             if isinstance(base, Obj):
+                if e.attr not in base.fields and isinstance(e.ctx, ast.Load):
+                    # a class-level default (expanding: bool = True) is what an instance without its own value shows
+                    for k_ in (self.prog.mro(kk) for kk in self.prog.classes.values() if (kk.fullname == base.full if base.full else kk.name == base.cls)):
+                        for cls_ in k_:
+                            for st_ in cls_.node.body:
+                                tg_ = st_.targets[0] if isinstance(st_, ast.Assign) and len(st_.targets) == 1 else st_.target if isinstance(st_, ast.AnnAssign) else None
+                                if isinstance(tg_, ast.Name) and tg_.id == e.attr and getattr(st_, "value", None) is not None \
+                                        and isinstance(st_.value, (ast.Constant, ast.List, ast.Tuple, ast.Dict)):
+                                    return self.ev(st_.value, {}, depth)
+                        break
                 if self.strict_attrs and e.attr not in base.fields and isinstance(e.ctx, ast.Load):
                     cands_ = [ci for ci in self.prog.classes.values() if (ci.fullname == base.full if base.full else ci.name == base.cls)]
                     if len(cands_) == 1 and self.prog.lookup_method(cands_[0], e.attr) is None \
@@ -585,14 +613,14 @@ class Interp:
                 for v in e.values:
                     last = self.ev(v, env, depth)
                     if self.truthy(last):
-                        return last if isinstance(last, (bool, SVal, SumVal, LocalFn, Sym, dict, list)) else True
+                        return last if isinstance(last, (bool, SVal, SumVal, LocalFn, Sym, dict, list, int, float, str, set, tuple, Obj, TypeV)) else True
                 return last if isinstance(last, (SVal, type(None), list, dict, set, tuple, str, int, float)) else False
             last = True
             for v in e.values:
                 last = self.ev(v, env, depth)
                 if not self.truthy(last):
                     return last if last is None or isinstance(last, (list, dict, set, tuple, str, int, float)) else False
-            return last if isinstance(last, (bool, SVal, SumVal, LocalFn, Sym, dict, list)) else True
+            return last if isinstance(last, (bool, SVal, SumVal, LocalFn, Sym, dict, list, int, float, str, set, tuple, Obj, TypeV)) else True
         if isinstance(e, ast.IfExp):
             return self.ev(e.body if self.truthy(self.ev(e.test, env, depth)) else e.orelse, env, depth)
         if isinstance(e, ast.Compare) and len(e.ops) > 1:
@@ -802,6 +830,30 @@ class Interp:
             fval = env[_path(c.func)]     # a callable stored in an attribute (self.callable(...))
         if isinstance(fval, LocalFn) and depth < self.max_depth:
             return self.call_local(fval, args, kwargs, depth, env)
+        if isinstance(fval, Sym) and isinstance(c.func, ast.Name) and "." in fval.tag and not any(ch in fval.tag for ch in "([ :") \
+                and not getattr(self, "_redispatch", False):
+            # a bound method kept in a local name (distance = grammar.get_distance_to_terminal; distance(x)): call it on its object
+            base_tag, attr_ = fval.tag.rsplit(".", 1)
+            env2 = dict(env)
+            env2["__recv"] = Sym(base_tag)
+            names_ = []
+            for i_, a_ in enumerate(args):
+                env2[f"__a{i_}"] = a_
+                names_.append(ast.Name(id=f"__a{i_}", ctx=ast.Load()))
+            kws_ = []
+            for k_, v_ in kwargs.items():
+                env2[f"__k_{k_}"] = v_
+                kws_.append(ast.keyword(arg=k_, value=ast.Name(id=f"__k_{k_}", ctx=ast.Load())))
+            fake = ast.copy_location(ast.Call(func=ast.Attribute(value=ast.Name(id="__recv", ctx=ast.Load()), attr=attr_, ctx=ast.Load()),
+                                              args=names_, keywords=kws_), c)
+            ast.fix_missing_locations(fake)
+            self._redispatch = True
+            try:
+                r_ = self.call(fake, env2, depth)
+            finally:
+                self._redispatch = False
+            if not (isinstance(r_, Sym) and r_.tag.endswith("()")) and r_ is not UNKNOWN:
+                return r_
         if isinstance(fval, Sym):
             self.trace.append(Effect("callsym", fval.tag, tuple(args), kwargs, node=c, fn=self.fn_stack[-1]))
             if self.sym_result is not None:
@@ -861,6 +913,11 @@ class Interp:
                     and all(_is_num(v) for v in kwargs.values()) and set(kwargs) <= {"rel_tol", "abs_tol"}:
                 import math as _m
                 return _m.isclose(float(args[0]), float(args[1]), **{k: float(v) for k, v in kwargs.items()})
+            if nm == "chain" and nm not in env and all(isinstance(a, (list, set, dict)) for a in args):
+                out_ = []
+                for a in args:
+                    out_ += list(a.keys()) if isinstance(a, dict) else (sorted(a, key=repr) if isinstance(a, set) else list(a))
+                return out_
             if nm == "map" and len(args) == 2 and isinstance(args[1], (list, set)) and nm not in env:
                 return [self.apply(args[0], [x], env, depth) for x in (args[1] if isinstance(args[1], list) else sorted(args[1], key=repr))]
             if nm == "filter" and len(args) == 2 and isinstance(args[1], list) and nm not in env and args[0] is not None:
@@ -1022,6 +1079,12 @@ class Interp:
                 return [[i, x] for i, x in enumerate(args[0])]
             if nm == "zip" and all(isinstance(a, list) for a in args) and args:
                 return [list(t) for t in zip(*args)]
+        if isinstance(c.func, ast.Attribute) and nm == "from_iterable" and len(args) == 1 and isinstance(args[0], list) \
+                and all(isinstance(a, (list, set, dict)) for a in args[0]):
+            out_ = []
+            for a in args[0]:
+                out_ += list(a.keys()) if isinstance(a, dict) else (sorted(a, key=repr) if isinstance(a, set) else list(a))
+            return out_
         if isinstance(c.func, ast.Attribute) and isinstance(c.func.value, ast.Name) and c.func.value.id == "dict" and nm == "fromkeys" \
                 and "dict" not in env and 1 <= len(args) <= 2 and isinstance(args[0], (list, set, dict)):
             keys_ = list(args[0].keys()) if isinstance(args[0], dict) else (sorted(args[0], key=repr) if isinstance(args[0], set) else args[0])
@@ -1276,6 +1339,18 @@ def _install():
                 val = LocalFn(st, {}, fi if fi is not None else self.fn_stack[-1], self._defaults(st, {}, depth))
                 break
         if val is None:
+            # a module-level constant of the repository imported by name (INF_VALUE)
+            full_ = self.prog.resolve_name(mod, name)
+            if full_ and "." in full_:
+                mname_, cname_ = full_.rsplit(".", 1)
+                src_ = self.prog.modules.get(mname_) if hasattr(self.prog, "modules") else None
+                if src_ is not None and src_ is not mod:
+                    for st in src_.tree.body:
+                        tgt = st.targets[0] if isinstance(st, ast.Assign) and len(st.targets) == 1 else st.target if isinstance(st, ast.AnnAssign) else None
+                        if isinstance(tgt, ast.Name) and tgt.id == cname_ and isinstance(getattr(st, "value", None), ast.Constant):
+                            val = st.value.value
+                            break
+        if val is None:
             # a module-level function of the repository imported by name
             full = self.prog.resolve_name(mod, name)
             fi = self.prog.functions.get(full) if full else None
@@ -1297,6 +1372,7 @@ def _install():
     Interp.prelude_same_object = True
     Interp.strict_index = False
     Interp.strict_keys = False
+    Interp.strict_iter = False
     Interp.strict_attrs = False
     Interp.fork_sites = []
     Interp.instantiate_classes = False
